@@ -49,6 +49,7 @@ LEVEL["decided"] += ' (R03.10) no attribute a user callable need not have is rea
 LEVEL["decided"] += " (R03.11) no __aexit__ hands back what the source's aclose() returned (R06.3, shared); (R03.12) the truth value of a callable argument is never taken; (R03.13) awaitify's wrappers pass *args and **kwargs on unchanged."
 LEVEL["decided"] += " (R03.14) a user's callable is never handed to a synchronous higher-order function of the standard library; (R03.15) the internal borrow wraps every flavour of source alike (R07.4, shared); R03.2 also covers isinstance / len tests on the elements of a *iterables parameter."
 LEVEL["decided"] += ' R03.13 also: the wrappers take `self` positional-only (a keyword argument named self belongs to the wrapped callable); R03.3 answers questions about objects derived from the callable (what it wraps, its attributes) against the answer for the callable itself, and evaluates the synchronous wrapper for two kinds of source (8 cells).'
+LEVEL["decided"] += ' (R03.17) a shared source is closed only when its last reader is done (R04.5, shared: closing acts differently on generators and on class-based iterators).'
 LEVEL["decided"] += ' (R03.16) an iterable argument is converted into an iterator once (a re-iterable flavour would start over); R03.2 also reports len() / length_hint() of an iterable parameter; R03.7 also: nothing observable happens between calling an awaitified callable and awaiting its result (also for awaitified callables kept in a field).'
 
 # raw calls of user objects that are correct by documented contract (unit -> reason)
@@ -122,6 +123,13 @@ def run(ctx) -> None:
                        "the library hands a value back that it did not derive from the exception (R06.3, shared)")
     c06._aexit_falsy(_Rel(ctx, "R03.11"))
     r03_16(ctx)
+    # closing is the one operation whose effect depends on the flavour of a source: an (internally wrapped) generator
+    # ends there, a class-based iterator without aclose goes on - so a source that still has readers is never closed
+    from . import c04 as _c04
+    ctx.rule("R03.17", "a shared source is closed only when no reader is left (tee: the last peer; R04.5, shared): what closing does "
+                       "depends on the flavour of the source, so closing it under a remaining reader makes that reader's items "
+                       "depend on the flavour")
+    _c04.r04_5(_Rel(ctx, "R03.17"))
     ctx.floor("awaitified_calls", 8)
     ctx.floor("awaitify_sites", 10)
     ctx.floor("iterable_params", 25)
@@ -733,6 +741,19 @@ def r03_2(ctx, modules=None) -> None:
                     ctx.fail("R03.2", u, n.ast, f"`{norm(n.ast)}` asks the iterable argument for its length: a list has one, an "
                              "iterator or an asynchronous iterable of the same items has none - the flavours of one and the same "
                              "argument take different paths", node=n)
+        # ``hasattr(iterable, ..)``: which attributes an argument has differs between the flavours of the same items (a list has
+        # no aclose, the iterator aiter() makes of it has one): the question belongs to the iterator
+        if ctx.pkg.canonical(u) not in DIRECT_ITERATION_OK:
+            for n in cfg.nodes:
+                if n.kind != "call" or n.tag or len(n.ast.args) != 2 or norm(n.ast.func) != "hasattr":
+                    continue
+                v0 = ctx.vals.expr(u, n.ast.args[0], n)
+                hit = [a for a in v0 if a[0] == "user" and str(a[1]).startswith(u.short + ":") and str(a[1]).split(":")[-1] in iter_params]
+                if hit:
+                    bad += 1
+                    ctx.fail("R03.2", u, n.ast, f"`{norm(n.ast)}` asks the iterable argument itself for an attribute: a list, an iterator and an "
+                             "asynchronous iterable of the same items differ in what they have - the flavours of one and the same "
+                             "argument take different paths (the question belongs to the iterator made by aiter())", node=n)
         # ... the same for the *elements* of a ``*iterables`` parameter, wherever the test sits (a comprehension filter):
         # ``isinstance(it, Sized)`` / ``len(it)`` single out synchronous containers among the arguments
         if va is not None and "ITERABLE" in roles_of_annotation(va.annotation) and ctx.pkg.canonical(u) not in DIRECT_ITERATION_OK:
@@ -883,6 +904,12 @@ def r03_3(ctx) -> None:
     ok = (len(loops) + len(iters)) == 1 and s.kind == "asyncgen"
     ctx.check(ok, "R03.3", s, "_aiter_sync", "the sync wrapper iterates with a plain `for` (so iterators and "
               "__getitem__ sequences both work) and yields every item unchanged")
+    r03_3_awaitify(ctx)
+
+
+def r03_3_awaitify(ctx) -> None:
+    """the adapter for callables as a table (shared by C14: every exit registered with an ExitStack goes through it)"""
+    SKIP = ("force_async", "await_value", "awaitify", "aiter")
     # --- awaitify: coroutine functions pass, everything else is wrapped for run-time detection
     w = ctx.unit("_core.awaitify")
     p = w.param_names()[0]
@@ -1172,39 +1199,34 @@ def _aclose_guard(ctx, u, cfg, n, recv, v, find_path, abstract_values) -> str:
             text = norm(ann) if ann is not None else ""
             if any(k in text for k in ("AClose", "ACloseable", "AsyncGenerator")) and "AsyncIterator" not in text.replace("AsyncGenerator", ""):
                 return f"declared type `{text}` has aclose"
-    # g4: an element of a field collection whose filter keeps only closeable objects
+    # g4: an element of a field collection whose filter keeps only closeable objects (the collection may be iterated
+    # directly, or as part of a display ``(*self._owned, self._own_generator)`` whose other entries the library made itself)
     loops = [a for (k, a) in n.regions if k == "loop" and isinstance(a, ast.For)]
     for loop in loops:
-        if isinstance(recv, ast.Name) and isinstance(loop.target, ast.Name) and loop.target.id == recv.id \
-                and isinstance(loop.iter, ast.Attribute) and norm(loop.iter.value) == "self" and u.cls is not None:
-            init = u.cls.methods.get("__init__")
-            if init is not None:
-                init = ctx.inlined(init)  # the collection may be built by a private helper
-            for st in (own_nodes(init.node) if init is not None else []):
-                tg = st.targets[0] if isinstance(st, ast.Assign) else st.target if isinstance(st, ast.AnnAssign) else None
-                if isinstance(tg, ast.Attribute) and tg.attr == loop.iter.attr and st.value is not None:
-                    if isinstance(st.value, ast.Name):
-                        from .common import name_value
-                        icfg = cfg_of(init)
-                        at = next((x for x in icfg.nodes if x.kind == "store" and not x.tag and x.stmt is st), None)
-                        alias = name_value(ctx, init, icfg, at, st.value.id) if at is not None else None
-                        if alias is not None:
-                            st = ast.copy_location(ast.Assign(targets=[tg], value=alias), st)
-                    comps = [c for c in ast.walk(st.value) if isinstance(c, (ast.GeneratorExp, ast.ListComp))]
-                    conds = [c for comp in comps for g in comp.generators for c in g.ifs]
-                    if conds and all(abstract_values(ctx, init, _NoAcloseOps(), c, {}) == {False} for c in conds):
-                        return f"elements of self.{tg.attr} are filtered to objects that have aclose"
-                    # ``tuple(filter(predicate, xs))``: the predicate says "no" to an object without aclose
-                    filters = [c for c in ast.walk(st.value) if isinstance(c, ast.Call) and norm(c.func) == "filter" and len(c.args) == 2]
-                    probes = []
-                    for f_ in filters:
-                        pr = ast.copy_location(ast.Call(func=f_.args[0], args=[ast.Name(id="<element>", ctx=ast.Load())], keywords=[]), f_)
-                        ast.fix_missing_locations(pr)
-                        probes.append(pr)
-                    if probes and all(abstract_values(ctx, init, _NoAcloseOps(), pr, {}) == {False} for pr in probes):
-                        return f"elements of self.{tg.attr} are filtered to objects that have aclose"
-                    if _built_from_guarded_appends(ctx, init, st, find_path):
-                        return f"elements of self.{tg.attr} are appended only after an isinstance/hasattr test for aclose"
+        if not (isinstance(recv, ast.Name) and isinstance(loop.target, ast.Name) and loop.target.id == recv.id and u.cls is not None):
+            continue
+        it = loop.iter
+        if isinstance(it, ast.Name):
+            from .common import inline_locals
+            head = next((x for x in cfg.nodes if x.kind in ("iter", "pull", "loop", "for") and getattr(x, "stmt", None) is loop), n)
+            it = inline_locals(ctx, u, cfg, head, it, depth=1)
+        entries = list(it.elts) if isinstance(it, (ast.Tuple, ast.List)) else [ast.Starred(value=it, ctx=ast.Load())]
+        reasons = []
+        for e in entries:
+            if isinstance(e, ast.Starred) and isinstance(e.value, ast.Attribute) and norm(e.value.value) == "self":
+                why = _field_elements_closeable(ctx, u, e.value.attr, find_path, abstract_values)
+            elif isinstance(e, ast.Attribute) and norm(e.value) == "self":
+                fv = ctx.vals.expr(u, e, n)
+                why = "" if (not fv or any(a[0] in ("user", "iter", "item", "unknown") for a in fv)) else \
+                    f"self.{e.attr} is an object the library made itself"
+            else:
+                why = ""
+            if not why:
+                reasons = []
+                break
+            reasons.append(why)
+        if reasons:
+            return "; ".join(dict.fromkeys(reasons))
     # g5: a field of a class that is only constructed under a hasattr(x, "aclose") guard
     if isinstance(recv, ast.Name):
         from .common import inline_locals
@@ -1218,13 +1240,46 @@ def _aclose_guard(ctx, u, cfg, n, recv, v, find_path, abstract_values) -> str:
                     sites += 1
                     wcfg = cfg_of(w)
                     cn = next((x for x in wcfg.nodes if x.kind == "call" and x.ast is c and not x.tag), None)
-                    tests2 = {b for b in wcfg.nodes if b.kind == "branch" and isinstance(b.ast, ast.Call) and norm(b.ast.func) == "hasattr"
-                              and len(b.ast.args) == 2 and isinstance(b.ast.args[1], ast.Constant) and b.ast.args[1].value == "aclose"}
+                    from .common import hasattr_branches
+                    tests2 = set(hasattr_branches(ctx, w, wcfg))
                     if cn is not None and tests2 and find_path(
                             wcfg.entry, lambda x: x is cn, edge_ok=lambda a, lab, b: lab not in ("e", "p") and not (a in tests2 and lab == "t")) is None:
                         guarded += 1
         if sites and sites == guarded:
             return f"{u.cls.name} is only constructed for objects that have aclose (hasattr guard at every construction site)"
+    return ""
+
+
+def _field_elements_closeable(ctx, u, attr: str, find_path, abstract_values) -> str:
+    """why every element of the collection ``self.<attr>`` (built in ``__init__``) has ``aclose``, or ''"""
+    init = u.cls.methods.get("__init__")
+    if init is not None:
+        init = ctx.inlined(init)  # the collection may be built by a private helper
+    for st in (own_nodes(init.node) if init is not None else []):
+        tg = st.targets[0] if isinstance(st, ast.Assign) else st.target if isinstance(st, ast.AnnAssign) else None
+        if isinstance(tg, ast.Attribute) and tg.attr == attr and st.value is not None:
+            if isinstance(st.value, ast.Name):
+                from .common import name_value
+                icfg = cfg_of(init)
+                at = next((x for x in icfg.nodes if x.kind == "store" and not x.tag and x.stmt is st), None)
+                alias = name_value(ctx, init, icfg, at, st.value.id) if at is not None else None
+                if alias is not None:
+                    st = ast.copy_location(ast.Assign(targets=[tg], value=alias), st)
+            comps = [c for c in ast.walk(st.value) if isinstance(c, (ast.GeneratorExp, ast.ListComp))]
+            conds = [c for comp in comps for g in comp.generators for c in g.ifs]
+            if conds and all(abstract_values(ctx, init, _NoAcloseOps(), c, {}) == {False} for c in conds):
+                return f"elements of self.{tg.attr} are filtered to objects that have aclose"
+            # ``tuple(filter(predicate, xs))``: the predicate says "no" to an object without aclose
+            filters = [c for c in ast.walk(st.value) if isinstance(c, ast.Call) and norm(c.func) == "filter" and len(c.args) == 2]
+            probes = []
+            for f_ in filters:
+                pr = ast.copy_location(ast.Call(func=f_.args[0], args=[ast.Name(id="<element>", ctx=ast.Load())], keywords=[]), f_)
+                ast.fix_missing_locations(pr)
+                probes.append(pr)
+            if probes and all(abstract_values(ctx, init, _NoAcloseOps(), pr, {}) == {False} for pr in probes):
+                return f"elements of self.{tg.attr} are filtered to objects that have aclose"
+            if _built_from_guarded_appends(ctx, init, st, find_path):
+                return f"elements of self.{tg.attr} are appended only after an isinstance/hasattr test for aclose"
     return ""
 
 
